@@ -23,10 +23,15 @@ class MachineryFailure(Exception):
 
 
 def load_known_findings():
+    out = []
     f = ROOT / "known_findings.json"
-    if not f.exists():
-        return []
-    return json.loads(f.read_text()).get("findings", [])
+    if f.exists():
+        out += json.loads(f.read_text()).get("findings", [])
+    d = ROOT / "known_findings.d"
+    if d.is_dir():
+        for g in sorted(d.glob("*.json")):
+            out += json.loads(g.read_text()).get("findings", [])
+    return out
 
 
 class Check:
